@@ -302,8 +302,8 @@ namespace pika::detail {
 
             // Mark this item as removed from the list.
             cb->prev_ = nullptr;
-            PIKA_VERIF_POST("stop.deq", cb, callbacks_ != nullptr, 0);
 
+            PIKA_VERIF_POST("stop.deq", cb, callbacks_ != nullptr, 0);
             // Don't hold lock while executing callback so we don't block other
             // threads from unregistering callbacks.
             detail::unlock_guard<stop_state> ul(*this);
